@@ -141,6 +141,7 @@ static definition_info defs[NM][MAXD];
 static type_id dvp[NM][MAXD][5];
 static void* nexts[NM][MAXD];
 
+static int dv[NM][MAXD][4];  // definition parameter classes (copy of D_VP; solver variables with -DSYM_DEFS)
 static std::uintptr_t def_pf(int m, int k) { return 1000 + 100 * m + k; }
 
 // ---- oracle (documented rules, shares nothing with yomm2) -------------------
@@ -166,7 +167,7 @@ static int select_best(int m, const bool* cand) {
     for (int k = 0; k < D_N[m]; k++) if (cand[k]) {
         n++;
         bool dominates_all = true;
-        for (int l = 0; l < D_N[m]; l++) if (l != k && cand[l] && !more_specific(D_VP[m][k], D_VP[m][l], M_AR[m])) dominates_all = false;
+        for (int l = 0; l < D_N[m]; l++) if (l != k && cand[l] && !more_specific(dv[m][k], dv[m][l], M_AR[m])) dominates_all = false;
         if (dominates_all) winner = k;
     }
     return n == 0 ? OR_NONE : winner;
@@ -175,7 +176,7 @@ static int oracle_call(int m, const int* args) {
     bool cand[MAXD];
     for (int k = 0; k < MAXD; k++) {
         cand[k] = k < D_N[m];
-        for (int p = 0; p < M_AR[m]; p++) if (k < D_N[m] && !anc[args[p]][D_VP[m][k][p]]) cand[k] = false;
+        for (int p = 0; p < M_AR[m]; p++) if (k < D_N[m] && !anc[args[p]][dv[m][k][p]]) cand[k] = false;
     }
     return select_best(m, cand);
 }
@@ -185,8 +186,8 @@ static int oracle_next(int m, int d) {
         cand[k] = k < D_N[m] && k != d;
         bool differs = false;
         for (int p = 0; p < M_AR[m]; p++) if (k < D_N[m]) {
-            if (!anc[D_VP[m][d][p]][D_VP[m][k][p]]) cand[k] = false;  // k's class must be d's class or a base of it
-            if (D_VP[m][k][p] != D_VP[m][d][p]) differs = true;
+            if (!anc[dv[m][d][p]][dv[m][k][p]]) cand[k] = false;  // k's class must be d's class or a base of it
+            if (dv[m][k][p] != dv[m][d][p]) differs = true;
         }
         if (!differs) cand[k] = false;
     }
@@ -222,7 +223,7 @@ static void register_all() {
         mi->specs.clear();
         for (int j = 0; j < D_N[m]; j++) {
             int k = D_ORDER[m][j];
-            for (int p = 0; p < M_AR[m]; p++) dvp[m][k][p] = CLASS_ID[D_VP[m][k][p]];
+            for (int p = 0; p < M_AR[m]; p++) dvp[m][k][p] = CLASS_ID[dv[m][k][p]];
             defs[m][k].vp_begin = dvp[m][k];
             defs[m][k].vp_end = dvp[m][k] + M_AR[m];
             defs[m][k].pf = (void*)def_pf(m, k);
@@ -291,6 +292,17 @@ static std::uintptr_t checked_walk(int m, const int* args) {
 extern "C" void cbmc_main() {
     ll2c_run_global_ctors();
     closure();
+    for (int m = 0; m < NM; m++) for (int k = 0; k < MAXD; k++) for (int p = 0; p < 4; p++) dv[m][k][p] = D_VP[m][k][p];
+#ifdef SYM_DEFS
+    // the parameter classes of every definition are solver variables (any class deriving from the method's)
+    for (int m = 0; m < NM; m++) for (int k = 0; k < D_N[m]; k++) for (int p = 0; p < M_AR[m]; p++) {
+        int acc[NC]; int nacc = 0;
+        for (int c = 0; c < NC; c++) if (anc[c][M_VP[m][p]]) acc[nacc++] = c;
+        int pickidx = (int)verif_range(0, nacc - 1);
+        dv[m][k][p] = acc[0];
+        for (int c = 0; c < NC; c++) if (c == pickidx && c < nacc) dv[m][k][p] = acc[c];
+    }
+#endif
     for (int c = 0; c < NC; c++) is_abstract[c] = CHECK_REPORT ? (nondet_u32() & 1) : 0;
 #if PRIOR_GARBAGE
     // state left by an arbitrary earlier history of updates
